@@ -29,6 +29,18 @@ def memorySizeOf (fn : MemFn) (st : List Word) : MemSizeResult :=
     match st[a]? with
     | some x => let r := calcMemSize64WithUint x len; .size r.1 r.2
     | none => .panic
+  -- `memoryCall` and friends: x := calcMemSize64(Back(a), Back(b)); y := calcMemSize64(Back(c), Back(d));
+  -- either overflow gives (0, true); else the larger one
+  let twoWindows (a b c d : Nat) : MemSizeResult :=
+    match st[a]?, st[b]?, st[c]?, st[d]? with
+    | some xo, some xl, some yo, some yl =>
+      let x := calcMemSize64 xo xl
+      if x.2 then .size 0 true
+      else
+        let y := calcMemSize64 yo yl
+        if y.2 then .size 0 true
+        else if x.1 > y.1 then .size x.1 false else .size y.1 false
+    | _, _, _, _ => .panic
   match fn with
   | .none => .noFn
   | .memorySha3 => two 0 1 calcMemSize64
@@ -47,6 +59,14 @@ def memorySizeOf (fn : MemFn) (st : List Word) : MemSizeResult :=
     | _, _, _ => .panic
   | .memoryReturn => two 0 1 calcMemSize64
   | .memoryRevert => two 0 1 calcMemSize64
+  | .memoryExtCodeCopy => two 1 3 calcMemSize64
+  | .memoryCreate => two 1 2 calcMemSize64
+  | .memoryCreate2 => two 1 2 calcMemSize64
+  | .memoryLog => two 0 1 calcMemSize64
+  | .memoryCall => twoWindows 5 6 3 4
+  | .memoryDelegateCall => twoWindows 4 5 2 3
+  | .memoryStaticCall => twoWindows 4 5 2 3
+  | .memoryAuthCall => twoWindows 7 8 5 6
   | .other name => .unmodelled name
 
 /-- `utility.SafeMul` / `SafeAdd` : (result mod 2^64, overflow) -/
